@@ -715,3 +715,74 @@ LEVEL_TEXT = ("Deductive: the numeric / length / item-count boundary generators 
               "(multipleOf clauses for a finite set of divisors, labelled bounded); the case-level label rule is a postcondition on every case yielded by _iter_coverage_cases.")
 LEVEL_NOTE = "Trusted: E1 (values generated from a schema are valid for it), floats as reals, pyvc semantics (E9)."
 TECHNIQUE = "contract-based deductive verification: AST->z3 VC generation on the real generators (pyvc), symbolic schema dictionaries, native replay of counter-models"
+
+
+# ------------------------------------------------------------------------------------------------- _negative_type: values labelled "Incorrect type" have a type the schema does NOT allow
+# `type` may be a string or a LIST of types; JSON Schema: an integer is also a number. A value of the other types is drawn from a per-type library strategy (E1/E2: the
+# strategy for type T yields values of type T; NUMERIC_STRATEGY yields integers too; FLOAT_STRATEGY filtered by _is_non_integer_float yields non-integer numbers only).
+JSON_TYPES = ("integer", "number", "boolean", "null", "string", "array", "object")
+R.module_values[COV.rstrip(":") + ":STRATEGIES_FOR_TYPE"] = {t: ("values-of-type", t) for t in JSON_TYPES}
+
+
+def _float_strategy(it):
+    from pyvc.values import VObj
+
+    return VObj(it.resolve_class("spec:FloatStrategy"), {})
+
+
+def _float_filter(it, obj, a, k):
+    f = a[0]
+    if getattr(f, "name", None) != "_is_non_integer_float" and getattr(getattr(f, "node", None), "name", None) != "_is_non_integer_float":
+        raise OutOfSubset("FLOAT_STRATEGY.filter(<something other than _is_non_integer_float>)")
+    return ("values-of-type", "non-integer-number")
+
+
+R.module_values[COV.rstrip(":") + ":FLOAT_STRATEGY"] = __import__("pyvc.interp", fromlist=["LazyModuleValue"]).LazyModuleValue(_float_strategy)
+R.nominal_methods["spec:FloatStrategy"] = {"filter": _float_filter}
+
+
+def _typed_generate_from(it, obj, a, k):
+    from pyvc.values import VObj
+
+    strat = a[0]
+    if not (isinstance(strat, tuple) and len(strat) == 2 and strat[0] == "values-of-type"):
+        raise OutOfSubset(f"generate_from({strat!r}) in _negative_type")
+    return VObj(it.resolve_class("spec:TypedValue"), {"json_type": strat[1]})
+
+
+R.nominal_methods["spec:TypeCtxObj"] = {"generate_from": _typed_generate_from}
+_prev_hash_key = R.contracts[COV + "_to_hashable_key"].returns
+R.contracts[COV + "_to_hashable_key"].returns = lambda it, env: ("key-of", env["value"]) if getattr(it.top_contract, "target", "").endswith("_negative_type") else _prev_hash_key(it, env)
+
+
+def _type_allows(it, ty, json_type):
+    """JSON Schema `type`: does a value of `json_type` satisfy `type: ty`?  (an integer is a number; a non-integer number is a number but not an integer)"""
+    types = [ty] if isinstance(ty, str) else list(ty)
+    if json_type == "integer":
+        return "integer" in types or "number" in types
+    if json_type == "number":  # any number: possibly an integer
+        return "number" in types or "integer" in types
+    if json_type == "non-integer-number":
+        return "number" in types
+    return json_type in types
+
+
+R.spec_funcs["type_allows"] = _type_allows
+R.spec_funcs["JSON_TYPES"] = lambda it: JSON_TYPES
+R.contract(
+    COV + "_negative_type",
+    variant="types",
+    prop="C03",
+    args={"ctx": Obj("spec:TypeCtxObj", current_path=Const("/")), "seen": _SeenSet(),
+          "ty": Choice("integer", "number", "string", "null", "boolean", ["integer", "null"], ["number", "string"], ["integer", "number"], ["string"], ["null", "integer", "string"])},
+    raises=[],
+    ensures={
+        # C03: a value labelled negative ("Incorrect type") really violates `type` - also when `type` is a LIST
+        "no_value_of_a_type_the_schema_allows": "all(not type_allows(ty, g.value.json_type) for g in result) and all(g.description == 'Incorrect type' for g in result)",
+        # ... and every other JSON type is probed
+        "every_disallowed_type_is_probed": "all(any(g.value.json_type == t or (t == 'number' and g.value.json_type == 'non-integer-number') for g in result) "
+                                           "for t in JSON_TYPES() if not type_allows(ty, t) and not (t == 'number' and type_allows(ty, 'non-integer-number')))",
+    },
+    bounded_note="ten spellings of `type` (five single types, five lists)",
+    replayable=False,
+)
